@@ -14,18 +14,18 @@ CLAIMED = {
             "The instrumented-mutex build (tag sio_deadlock) is not used as an oracle: a potential lock-order inversion is not a deadlock, and reporting it would raise false alarms; hangs are decided by the watchdog only.",
             "DESIGN.md §3 C16"),
     "C01": ("exploration",
-            "property-based testing (rapid) on a virtual-time rig (real server + real Manager over an in-memory network), exactly-once/intact oracle over token-carrying events",
-            "rapid scenarios inside a testing/synctest bubble: transport {polling, websocket, upgrade with emits falling into it}, recovery off/on, MaxBufferSize {64 KiB, 256 KiB, default}, 1..3 clients, 1..24 events of 25 schemas (16 Go argument shapes with Binary leaves, look-alike event names, attachments and strings of boundary sizes around 32 KiB / 64 KiB) in both directions from 1..4 goroutines per side. Oracle after quiescence + 2 heartbeat periods: per (receiver socket, event) the multiset of tokens equals what was emitted, arguments tree-equal, no error handler fired, no connection closed. Held on everything generated; sampling, not exhaustive.",
-            "Virtual time: interleavings are those the bubble's scheduler produces plus forced yields at hook sites; real TCP stacks are not in the loop. One open finding KF-C01-1 (excluded by construction while its probe still fails, counted).",
+            "property-based testing (rapid) on a virtual-time rig (real server + real Manager over an in-memory network), exactly-once/intact oracle over token-carrying events; link-fault injection; concurrent use of the manager",
+            "Three checks. c01-delivery: transport {polling, websocket, upgrade with emits falling into it}, recovery off/on, MaxBufferSize {64 KiB, 256 KiB, default}, 1..3 clients, 1..24 events of 25 schemas (16 Go argument shapes with Binary leaves, look-alike names, sizes around 32 KiB / 64 KiB) both ways from 1..4 goroutines per side; oracle: per (receiver, event) the multiset of tokens equals what was emitted, arguments tree-equal, no error, no close. c01-lossy-link: a two-way stream with every open TCP connection cut after d more bytes in one direction (reset or drained); oracle: events may be lost only together with a connection whose end is reported. c01-busy-manager: a binary stream while the client keeps using the same Manager (further namespaces, Open again, handlers, Connect/Disconnect of side namespaces); oracle: exactly once, intact, connection stays up. Held on everything generated; sampling, not exhaustive.",
+            "Virtual time: interleavings are those the bubble's scheduler produces plus forced yields at hook sites; real TCP stacks are not in the loop. Open findings KF-C01-1, KF-C01-2 (net/http repeats a poll whose answer was lost before its first byte) and KF-C05-1 (Disconnect then Connect at once), each excluded or tolerated by construction while its probe still fails, and counted.",
             "DESIGN.md §3 C01"),
     "C02": ("exploration",
             "property-based testing (rapid): wire-level check with an independent streaming decoder on a raw Engine.IO endpoint + handler-entry order on the rig",
-            "1..16 emitting goroutines x bursts of 1..50 events x 0..4 attachments, both directions, {polling, websocket, after an upgrade}, optional yield between queue append and sender signal; the receiving end is a raw Engine.IO endpoint whose message packets feed the reference streaming decoder. Oracle: frames of a packet contiguous, attachments in place, per-emitter sequence numbers in order, nothing lost; plus histories with two-at-once and rejected-first emits. Handler-entry order is checked on the sio<->sio rig; it is the open finding KF-C02-1 (a goroutine per packet), whose probe is re-evaluated on every run.",
+            "1..16 emitting goroutines x bursts of 1..50 events x 0..4 attachments, both directions, {polling, websocket, after an upgrade}, optional yield between queue append and sender signal; the receiving end is a raw Engine.IO endpoint whose message packets feed the reference streaming decoder. Oracle: frames of a packet contiguous, attachments in place, per-emitter sequence numbers in order, nothing lost; plus connection histories (two CONNECTs at once, a rejected one first), 8..200 ack-carrying events from the recording peer meanwhile (ACK packets share the wire), and client emitters that stream right through the flush of the offline buffer. Handler-entry order is checked on the sio<->sio rig; it is the open finding KF-C02-1 (a goroutine per packet), whose probe is re-evaluated on every run.",
             "Order is decided at Engine.IO message level (what the transport hands up), not on raw TCP bytes.",
             "DESIGN.md §3 C02"),
     "C03": ("exploration",
             "property-based testing (rapid) on the rig + a hand-written raw protocol peer that sends duplicate / late / unknown acks",
-            "rapid over ack'd emits in both directions with reply delays around the timeout, disconnects and cuts before the reply, broadcast acks; and a raw peer (Engine.IO by the repo's transport, Socket.IO "
+            "rapid over ack'd emits in both directions with reply delays around the timeout, callbacks taking replies by value or by pointer, plain and volatile offline emits, cuts before the reply; events with acks emitted from the server's connection handler while the client still processes the CONNECT reply (c03-at-connect); and a raw peer (Engine.IO by the repo's transport, Socket.IO "
             "by hand) that answers with duplicate, late, unknown-id and wrong-namespace ACK packets. Oracle: every callback runs at most once; with a timeout exactly once (reply or ErrAckTimeout, never both, "
             "within timeout + slack of virtual time); the reply values are the ones the handler passed (tree-equal); a case that never returns is a violation (stall -> real-clock confirmation).",
             "Timing bounds are in virtual time. Any one of several duplicate ACKs is admissible as 'the' reply.",
